@@ -15,6 +15,7 @@ OBLIGATIONS = [
     "NanoVerif.C19.registered_after",
     "NanoVerif.C19.later_copy_shares",
     "NanoVerif.C19.disabled_draws",
+    "NanoVerif.C19.groups_are_closure",
 ]
 DESIGN_REF = "DESIGN.md §5 C19"
 LEVEL_TEXT = ("Partial, oracle-relative. Proved in Lean for every answer of the reuse oracle: an offered donor is always taken (the migrated paint "
@@ -415,12 +416,16 @@ def run(ctx, res):
                 "that hold on the unchanged tree; other classes are known findings with frozen witnesses); viewBox in {24,48,100,128}; tolerance in {0.1,0.25,1}; formats glyf_colr_1, glyf_colr_0, picosvg; every case non-trivial")
     suite_try_reuse(ctx, res, ctx.budget(400, 8000))
     suite_migrate_seq(ctx, res, ctx.budget(150, 3000))
+    from harness import dset_tie
+    dset_tie.suite_disjoint_set(ctx, res, ctx.budget(300, 6000))
     suite(ctx, res, ctx.budget(60, 1500))
     suite_big_tiny(ctx, res, ctx.budget(8, 120))
 
 
 def search(ctx, res, broken):
     nano.init()
+    from harness import dset_tie
+    dset_tie.suite_disjoint_set(ctx, res, 5000)
     suite_migrate_seq(ctx, res, 1500)
     suite_big_tiny(ctx, res, 40)
     suite(ctx, res, 300)
